@@ -8,7 +8,10 @@ Rules (Dolev–Yao style, nothing inverts `path` / `epoch` / `initOf`):
 * the node key pair of an unfiltered path node is derived from its path secret: `(s, k) ∈ gens` and `s`
   known give the private key `k`;
 * `epoch i c p ctx` is computable only from all of `i`, `c`, `p` (the context is public);
-* `zero` is public.
+* `zero` is public;
+* the external key pair of an epoch is derived from its epoch secret: the transcript of an external commit lists
+  `(e, Key.ext e)` among the `gens` and the KEM output `(Key.ext e, Sec.ext n)` among the `seals`; `Sec.ext n`
+  itself is an atom (the joiner's KEM randomness).
 -/
 import MlsVerif.Model.Group
 
@@ -53,6 +56,7 @@ def hidden (A : Sec → Bool) : Sec → Bool
   | .path s => hidden A s
   | .initOf e => hidden A e
   | .epoch i c p _ => hidden A i || hidden A c || hidden A p
+  | .ext n => A (.ext n)
 
 /-- the random path secrets drawn by the commits from epoch `N` on -/
 def freshFrom (N : Nat) : Sec → Bool
